@@ -606,6 +606,19 @@ class cpu_limit:
         return False
 
 
+def rotated(seq, i):
+    """The order in which a worker takes up the dialects depends on the shard:
+    which dialect a process uses FIRST must not matter (class-level state that
+    one dialect leaves behind for its sub- or super-classes shows only in some
+    orders)."""
+    seq = list(seq)
+    k = (i // 2) % len(seq) if seq else 0
+    out = seq[k:] + seq[:k]
+    if i % 2:
+        out.reverse()
+    return out
+
+
 class Pristine:
     """A copy of this process forked before it processed anything.  Every
     request is answered by a further fork of that copy, so each answer comes
